@@ -1,7 +1,7 @@
 import os
 import vlib
 
-THEOREMS = []
+THEOREMS = ["Dispenso.ForEach." + t for t in ['C15_partition', 'C15_exactly_once', 'C15_numThreads_pos', 'C15_serial', 'C15_tasks_bound']]
 
 
 def run(ctx, replay):
